@@ -490,8 +490,11 @@ impl<'a> Gen<'a> {
         if !body.is_empty() && self.rng.chance(1, 10) {
             let inner = self.rng.range(3, 4);
             let at = self.rng.below(body.len());
-            body.insert(at, "`".repeat(inner));
-            body.push("`".repeat(inner));
+            // ... at the margin or indented by up to three spaces (which would still close a fence of that length)
+            let pad = |r: &mut Rng| if r.chance(1, 2) { " ".repeat(r.range(1, 3)) } else { String::new() };
+            let (p1, p2) = (pad(self.rng), pad(self.rng));
+            body.insert(at, format!("{}{}", p1, "`".repeat(inner)));
+            body.push(format!("{}{}", p2, "`".repeat(inner)));
             if self.rng.chance(1, 2) {
                 fence = '~';
             } else {
